@@ -304,6 +304,7 @@ type vWorld struct {
 	npeers   int
 	base     time.Time  // clock reading at the start of the current case
 	remotes  []net.Conn // remote ends of incoming connections of the current case
+	ac       *vAnnounceClient
 	cleanup  func()
 }
 
@@ -351,12 +352,13 @@ func newVWorld(np, ntor int) *vWorld {
 	if err != nil {
 		panic(err)
 	}
-	s, err := newScheduler(config, ta, tally.NoopScope, pctx, announceclient.Disabled(),
+	ac := &vAnnounceClient{}
+	s, err := newScheduler(config, ta, tally.NoopScope, pctx, ac,
 		networkevent.NewTestProducer(), withEventLoop(loop), withClock(clk))
 	if err != nil {
 		panic(err)
 	}
-	w := &vWorld{clk: clk, loop: loop, sched: s, cads: cads, ta: ta, mic: mic, np: np, cleanup: cleanup}
+	w := &vWorld{clk: clk, loop: loop, sched: s, cads: cads, ta: ta, mic: mic, np: np, cleanup: cleanup, ac: ac}
 	for i := 0; i < ntor; i++ {
 		b := vBlobFor(i, np)
 		if err := mic.Upload(b.mi); err != nil {
@@ -385,6 +387,7 @@ func (w *vWorld) reset(seederTTI, leecherTTI time.Duration) {
 		}
 		w.peers[i], w.peerCtrl[i], w.tors[i] = nil, nil, nil
 	}
+	w.ac.reset()
 	for _, nc := range w.remotes {
 		nc.Close()
 	}
@@ -659,4 +662,98 @@ func (w *vWorld) stConns() []*conn.Conn {
 		return nil
 	}
 	return w.st.conns.ActiveConns()
+}
+
+// ---------------------------------------------------------------- scripted announce client
+
+// vAnnounce is one announce request the scheduler has sent to the tracker and not yet got an answer for.
+type vAnnounce struct {
+	h        core.InfoHash
+	complete bool
+	reply    chan error
+}
+
+// vAnnounceClient is the announceclient.Client of the harness scheduler. Unscripted (the default) it
+// answers like announceclient.Disabled(). Scripted, every Announce call blocks until the harness releases
+// it, so the real announce goroutines of the scheduler (scheduler.announce → announcer.Announce) run and
+// their announceResultEvent / announceErrEvent are produced by the real code when the schedule says so.
+type vAnnounceClient struct {
+	mu       sync.Mutex
+	scripted bool
+	inflight []*vAnnounce
+	total    int
+}
+
+func (c *vAnnounceClient) CheckReadiness() error { return nil }
+
+func (c *vAnnounceClient) Announce(
+	d core.Digest, h core.InfoHash, complete bool, version int) ([]*core.PeerInfo, time.Duration, error) {
+
+	c.mu.Lock()
+	if !c.scripted {
+		c.mu.Unlock()
+		return nil, 0, announceclient.ErrDisabled
+	}
+	a := &vAnnounce{h: h, complete: complete, reply: make(chan error, 1)}
+	c.inflight = append(c.inflight, a)
+	c.total++
+	c.mu.Unlock()
+	if err := <-a.reply; err != nil {
+		return nil, 0, err
+	}
+	return nil, time.Second, nil
+}
+
+// waitTotal waits until n announce requests have been received in total.
+func (c *vAnnounceClient) waitTotal(n int) {
+	deadline := time.Now().Add(10 * time.Second)
+	for {
+		c.mu.Lock()
+		t := c.total
+		c.mu.Unlock()
+		if t >= n {
+			return
+		}
+		if time.Now().After(deadline) {
+			panic(fmt.Sprintf("harness: expected %d announce requests, saw %d", n, t))
+		}
+		time.Sleep(50 * time.Microsecond)
+	}
+}
+
+func (c *vAnnounceClient) count(h core.InfoHash) int {
+	c.mu.Lock()
+	defer c.mu.Unlock()
+	n := 0
+	for _, a := range c.inflight {
+		if a.h == h {
+			n++
+		}
+	}
+	return n
+}
+
+// release answers the oldest in-flight announce of h; false when there is none.
+func (c *vAnnounceClient) release(h core.InfoHash, err error) bool {
+	c.mu.Lock()
+	defer c.mu.Unlock()
+	for i, a := range c.inflight {
+		if a.h == h {
+			c.inflight = append(c.inflight[:i:i], c.inflight[i+1:]...)
+			a.reply <- err
+			return true
+		}
+	}
+	return false
+}
+
+// reset answers everything that is still in flight like a disabled client (no event results) and
+// switches scripting off.
+func (c *vAnnounceClient) reset() {
+	c.mu.Lock()
+	defer c.mu.Unlock()
+	for _, a := range c.inflight {
+		a.reply <- announceclient.ErrDisabled
+	}
+	c.inflight, c.total, c.scripted = nil, 0, false
 }
